@@ -35,9 +35,13 @@ CLAIMED = {
    "contents, match, literal decoding, strtotime) only by the bounded stand-in against an independent reference evaluator.",
    TB + BS, TECHB),
  "C05": ("other",
-   "Deductive: types.Equals/equals/equalsObj/equalsTuple/equalsFun == tyEq (the equality every typeAssert uses), panic containment of "
-   "types.Infer. The typing rules themselves (Check cases, overload resolution order, inferFun) are not under contract yet: they are "
-   "checked only by the bounded stand-in against an independent reference checker (well- and ill-typed programs, registration orders). "
+   "Deductive (all type trees): types.Equals/equals/equalsObj/equalsTuple/equalsFun == tyEq (the equality every typeAssert uses); "
+   "types.Obj fails exactly on a duplicate field name and builds a consistent name->index map; the pieces overload instantiation is "
+   "made of - unify binds a variable only to a type that does not contain it and never to two different types, applySubst / "
+   "unifyComposite return well-formed types, freeFrom == !occurs, slotFree == 'contains no type variable' (the test that decides "
+   "whether an instantiated signature is concrete); panic containment of types.Infer. The typing rules themselves (Check cases, "
+   "overload resolution order, inferFun) are not under contract: they are checked only by the bounded stand-in against an "
+   "independent reference checker (well- and ill-typed programs, registration orders). "
    "Known findings F19, F23 are open.",
    TB + BS, TECHB),
  "C06": ("other",
@@ -47,10 +51,12 @@ CLAIMED = {
    "stand-in (trace equality, poisoned branches).",
    TB + BS, TECHB),
  "C07": ("other",
-   "Deductive: types.Equals == tyEq (what envCheck compares with), val.(*Env).Get total, envCheck and the Callable literal are panic-"
-   "contained (scan obligation: a recover handler is deferred before anything that may panic). The iff-characterisation of envCheck's "
-   "result is not under contract yet; accept/reject and non-evaluation on rejection are checked by the bounded stand-in over "
-   "(compile env, run env) pairs.",
+   "Deductive: the Callable built by (*Expr).Compile reaches the compiled closure only after envCheck has accepted the environment "
+   "of THIS call (site assertion at the dynamic call, ghost token envOK(compile env, run env) produced only by envCheck's contract) "
+   "and returns envCheck's error otherwise; types.Equals == tyEq (what envCheck compares with), val.(*Env).Get total, envCheck and "
+   "the Callable literal are panic-contained (scan obligation). envCheck's own body (reflection-built environments, recover) is "
+   "outside the subset: its contract is ASSUMED and its accept/reject behaviour is checked by the bounded stand-in over (compile "
+   "env, run env) pairs.",
    TB + BS, TECHB),
  "C08": ("other",
    "Deductive (all inputs, all operator tables): pos.Range span contract; the associativity encoding of the parselets - binaryL / "
@@ -65,8 +71,10 @@ CLAIMED = {
    "Deductive (all inputs, all rule sets): (*Pos).Move cursor contract; skipSpace skips exactly a maximal run of white space; "
    "next returns EOF only at the end of input, otherwise a token that starts at the first non-space rune at or after the previous "
    "position, with Idx <= IdxEnd == the new cursor and only white space in between (the index-level half of 'tokens partition the "
-   "input'). Assumed: a rule's match function has no effect on the lexer. Rule bodies (regexp, longest match, whole-word tests) "
-   "and line/column over whole inputs: bounded stand-in against a reference maximal-munch lexer.",
+   "input'); line / column: the lexer cursor always equals (number of newlines before Idx, runes since the last newline) - recursive "
+   "spec functions lineAt / colAt, induction over the consumed runes in both loops - and every token carries lineAt / colAt of its "
+   "own start index. Assumed: a rule's match function has no effect on the lexer. Rule bodies (regexp, longest match, whole-word "
+   "tests): bounded stand-in against a reference maximal-munch lexer.",
    TB + BS + "Lexer rules (regexp) not under contract.", TECHB),
  "C10": ("other",
    "Deductive (all well-formed parser trees, unbounded - induction through the recursive calls): Desugar returns a tree of core "
@@ -79,8 +87,10 @@ CLAIMED = {
  "C11": ("other",
    "Deductive (all inputs): operand codec round trip (uint16ToByte/byteToUInt16, emitUint16/readUint16), emitters append exactly the "
    "stated bytes and leave the prefix unchanged, back-patch closure writes exactly two bytes and fails iff the value exceeds 16 bits, "
-   "constant-pool index, every opcase advances pc by 1 + operand width and keeps sp within the stack. Stack-depth balance and forward "
-   "jumps of whole compiled programs: bounded stand-in (independent abstract interpreter over the emitted bytecode).",
+   "constant-pool index, every opcase advances pc by 1 + operand width and keeps sp within the stack; (*bytecode).emitCond emits "
+   "cond / IF_TRUE else / then / JUMP end / else with both jumps patched to the addresses of the else arm and of the end (forward, "
+   "inside the code, on an instruction boundary), the sub-compilations being the assumed recursive contract. Stack-depth balance "
+   "of whole compiled programs: bounded stand-in (independent abstract interpreter over the emitted bytecode).",
    TB + BS, TECHB),
  "C12": ("other",
    "Deductive (scan obligations over go/ssa): Eval, Debug, (*Expr).Compile, the Callable, envCheck, types.Infer, conv.ValOf/TypeOf never "
@@ -109,18 +119,27 @@ CLAIMED = {
    "Deductive (all type trees, unbounded): types.Equals/equals/equalsObj/equalsTuple/equalsFun return exactly tyEq (structural, object "
    "fields by name) with the in-process memo set proved sound (a remembered pair is equal or belongs to an enclosing comparison); "
    "util.PtrPtrSet Add/Contains are given their set meaning as a trusted contract; well-formedness of type trees (variant tag = Kind, "
-   "consistent field index, components allocated before their parent) is the precondition. Unification laws (soundness of the "
-   "substitution, occurs check, matching completeness): bounded stand-in. Known finding F24 is open.",
+   "consistent field index, components allocated before their parent) is the precondition. Unification, local soundness (all "
+   "inputs): every write of the substitution binds a variable to a well-formed type that does not contain it (occurs check) and a "
+   "bound variable is re-bound only to an equal type; freeFrom == !occurs; applySubst / unifyComposite / Obj preserve well-formedness; "
+   "slotFree == ground. The global laws (the result substitution unifies, matching completeness): bounded stand-in. Known finding "
+   "F24 is open.",
    TB + BS, TECHB),
  "C18": ("other",
    "Deductive (all doubles): NumEQ/NumNE as |x-y| < EPS / >= EPS, IsInt includes the int64 range (what keeps number rendering and "
-   "keying injective), the ==/!= handlers and closures on num/bool/str/time. val.Equals, String and Key are assumed (trusted / "
-   "abstract) at their call sites. Agreement of ==, key identity, set membership and rendering on value pairs: bounded stand-in. "
+   "keying injective), the ==/!= handlers and closures on num/bool/str/time; val.Equals / equalsList / equalsObj / equalsMaybe return "
+   "exactly the recursive spec valEq (element-wise on lists, field-wise in declared order on objects, payload-wise on optionals, "
+   "tolerance on numbers) for all well-formed value trees; equalsMap (Go map iteration) is a trusted contract, String and Key are "
+   "abstract. Agreement of ==, key identity, set membership and rendering on value pairs: bounded stand-in. "
    "Known findings F12, F22 are open.",
    TB + BS, TECHB),
  "C19": ("other",
-   "Deductive: Debug is panic-contained up to the assumed-total renderer (scan obligation). Recording order/columns and equality "
-   "with normal evaluation: bounded stand-in (Debug vs Eval, record entries via a read-only hook, renderer robustness).",
+   "Deductive (all inputs): the recorder closure evaluates the wrapped closure exactly once, records the value it returned under the "
+   "term's column and returns that same value (ghost call sequence); wrapForDebug wraps exactly identifier / call / subscript / "
+   "member terms with their own closure and their own debug column and returns literals and constructors unwrapped; (*Record).Rec "
+   "appends exactly one entry, at a column no earlier entry has, leaving earlier entries untouched; DebugCompile clears the record "
+   "before the program runs; Debug is panic-contained up to the assumed-total renderer (scan obligation). Equality with normal "
+   "evaluation over whole programs and renderer robustness: bounded stand-in (Debug vs Eval, record entries via a read-only hook).",
    TB + BS, TECHB),
  "C20": ("other",
    "Deductive (all inputs): sql.compile - where the closure of a call node is created, parentheses are present whenever the call is "
